@@ -48,6 +48,8 @@ Agree(e) ==
          [] e.op \in {"Circ4", "Circ6"} ->
               LET x == IF e.op = "Circ4" THEN Circuit4(e.pkt) ELSE Circuit6(e.msg) IN
               e.st = x.st /\ (x.st = "ok" => e.slot = x.slot /\ e.mod = x.mod /\ e.port = x.port /\ e.subport = x.subport /\ e.vlan = x.vlan)
+         [] e.op = "DuidEq" -> e.res = (e.a = e.b) /\ e.sym = e.res
+         [] e.op = "Has4" -> e.res = (\E i \in DOMAIN e.pkt.opts : e.pkt.opts[i].c = e.code)
          [] OTHER -> FALSE
 
 ShardLo(k) == ((k - 1) * N) \div NShards + 1
